@@ -654,6 +654,36 @@ def _child_of_referrer_case(args):
                                       dict(tags, filtered=cm is not None),
                                       full=False))
             dst.unlink()
+            # one level deeper: a child of that child (which hides its first
+            # event when it has two or more), exported the same way
+            if cm is not None and int(cm.sum()) >= 2:
+                cnt += 1
+                gcase = dict(case, grandchild=True)
+                try:
+                    with dclab.new_dataset(ref) as ds:
+                        ds.filter.manual[:] = pm
+                        ds.apply_filter()
+                        ch = dclab.new_dataset(ds)
+                        ch.filter.manual[:] = cm
+                        ch.apply_filter()
+                        gc = dclab.new_dataset(ch)
+                        gm = np.ones(len(gc), bool)
+                        gm[0] = False
+                        gc.filter.manual[:] = gm
+                        gc.apply_filter()
+                        gc.export.hdf5(dst, features=["index_online"],
+                                       filtered=True, basins=True)
+                except BaseException as e:
+                    out.append(violation(
+                        "dclab.rtdc_dataset.export:Export.hdf5", "exception",
+                        gcase, f"{type(e).__name__}: {e}",
+                        dict(tags, exc=type(e).__name__, depth=2)))
+                    if dst.exists():
+                        dst.unlink()
+                    continue
+                out.extend(check_referrer(dst, ev, rmap[sel[gm]], gcase,
+                                          dict(tags, depth=2), full=False))
+                dst.unlink()
     finally:
         shutil.rmtree(d, ignore_errors=True)
     return cnt, out
